@@ -113,6 +113,8 @@ impl<'a> PrettyPrinter<'a> {
         let Expr::Parenthesized(p) = expr else {
             return self.convert_expr(ctx, expr);
         };
+        #[cfg(typstyle_verif)]
+        crate::verif_hooks::bump();
         if let Some(res) = self.check_disabled(expr.to_untyped()) {
             return res;
         }
